@@ -89,7 +89,18 @@ func init() {
 	// --- C19 / C09
 	calls["parseSearchTokens"] = func(a []string, n []int) interface{} { return bss(message.VerifParseSearchTokens(a[0])) }
 	calls["isSequenceSet"] = func(a []string, n []int) interface{} { return message.VerifIsSequenceSet(a[0]) }
-	calls["matchesSequenceSet"] = func(a []string, n []int) interface{} { return message.VerifMatchesSequenceSet(n[0], a[0]) }
+	// n = [number, largest number in use ("*")]; largest defaults to 0
+	calls["matchesSequenceSet"] = func(a []string, n []int) interface{} {
+		largest := 0
+		if len(n) > 1 {
+			largest = n[1]
+		}
+		return message.VerifMatchesSequenceSet(n[0], a[0], largest)
+	}
+	// n = [seq, uid, highest seq, highest uid]; a = [flags, criteria]
+	calls["evalCriteriaIn"] = func(a []string, n []int) interface{} {
+		return message.VerifEvalTokensIn(n[0], int64(n[1]), n[2], int64(n[3]), a[0], message.VerifParseSearchTokens(a[1]))
+	}
 	calls["evalTokens"] = func(a []string, n []int) interface{} {
 		return message.VerifEvalTokens(n[0], int64(n[1]), a[0], a[1:])
 	}
